@@ -1173,6 +1173,66 @@ macro_rules! area_unsigned_case {
         }
     }};
 }
+/// signed integer triangles whose cross product sits at the very end of the type's range: exactly
+/// T::MIN (whose absolute value halved, the area, IS representable), MIN + k, and MAX - k.  Every
+/// intermediate of the documented formula (edge vectors, the two products, their difference, the
+/// halved value and its negation) is representable, so the documented values must come back in both
+/// profiles; the other winding is left out where its cross product (+2^(bits-1)) does not exist.
+macro_rules! area_extreme_case {
+    ($sub:expr, $cfg:expr, $idx:expr, $T:ty, $ty:expr) => {{
+        let bits = <$T>::BITS as u64;
+        let per = (bits - 1) * 4 + 4;
+        let i = $idx % per;
+        // (a, b, c, cross)
+        let (a, b, c, cr): ([i128; 2], [i128; 2], [i128; 2], i128) = if i < (bits - 1) * 4 {
+            let (p, k) = (i / 4, (i % 4) as i128);
+            let q = bits - 1 - p;
+            // d1 = 2^p * -(2^q) = MIN, d2 = dy * ex = 1 * -k  ->  cross = MIN + k
+            let a = [-3i128, 5];
+            let b = [a[0] + (1i128 << p), a[1] + if k == 0 { 0 } else { 1 }];
+            let c = [a[0] - k, a[1] - (1i128 << q)];
+            (a, b, c, <$T>::MIN as i128 + k)
+        } else {
+            let k = (i - (bits - 1) * 4) as i128;
+            // d1 = MAX * 1, d2 = 1 * k  ->  cross = MAX - k
+            let a = [0i128, -2];
+            let b = [<$T>::MAX as i128, a[1] + 1];
+            let c = [k, a[1] + 1];
+            (a, b, c, <$T>::MAX as i128 - k)
+        };
+        let fits = |x: i128| x >= <$T>::MIN as i128 && x <= <$T>::MAX as i128;
+        let (dx, dy, ex, ey) = (b[0] - a[0], b[1] - a[1], c[0] - a[0], c[1] - a[1]);
+        assert!([a[0], a[1], b[0], b[1], c[0], c[1], dx, dy, ex, ey, dx * ey, dy * ex, dx * ey - dy * ex].iter().all(|x| fits(*x)) && dx * ey - dy * ex == cr, "harness: extreme triangle out of range");
+        let v = |p: [i128; 2]| -> Vec2<$T> { Vec2 { x: p[0] as $T, y: p[1] as $T } };
+        let inp = format!("a={:?} b={:?} c={:?}: (b-a) x (c-a) = {} ({}::MIN = {}, MAX = {})", a, b, c, cr, $ty, <$T>::MIN, <$T>::MAX);
+        $sub.saw("Vec2::signed_triangle_area");
+        $sub.saw("Vec2::triangle_area");
+        $sub.saw("Vec2::determine_side");
+        let got = guarded(|| (v(c).determine_side(v(a), v(b)), Vec2::<$T>::signed_triangle_area(v(a), v(b), v(c)), Vec2::<$T>::triangle_area(v(a), v(b), v(c))));
+        match got {
+            Err(e) => {
+                let vio = violation(PROP, $sub, "Vec2::triangle_area", $ty, "panic", "area_at_the_end_of_the_range", format!("{}: panicked: {}", inp, e), $cfg.case_seed(), $idx);
+                $sub.violated(vio);
+            }
+            Ok((side, sa, ta)) => {
+                let (side, sa, ta) = (side as i128, sa as i128, ta as i128);
+                let bad = if side != cr {
+                    Some(("Vec2::determine_side", "not_cross2d", format!("determine_side = {}", side)))
+                } else if sa != cr / 2 {
+                    Some(("Vec2::signed_triangle_area", "not_half_cross2d", format!("signed_triangle_area = {}, half of the cross product (truncating) = {}", sa, cr / 2)))
+                } else if ta != (cr / 2).abs() {
+                    Some(("Vec2::triangle_area", "not_abs_half_cross2d", format!("triangle_area = {}, |half cross| = {}", ta, (cr / 2).abs())))
+                } else {
+                    None
+                };
+                match bad {
+                    None => { $sub.sample(|| format!("[{}] {} -> area {}", $ty, inp, ta)); $sub.held_enumerated(true); }
+                    Some((api, what, msg)) => { let vio = violation(PROP, $sub, api, $ty, "wrong_value", what, format!("{}: {}", inp, msg), $cfg.case_seed(), $idx); $sub.violated(vio); }
+                }
+            }
+        }
+    }};
+}
 trait IsInt {
     const INT: bool;
 }
@@ -1329,6 +1389,55 @@ fn normalize_float<T: Fl, V: Sp<T>>(sub: &mut Sub, cfg: &Config, idx: u64) {
             ensure!(cx, (m5.f() - mag).abs() <= 64.0 * eps * mag, "normalized_and_get_magnitude", "returned_magnitude_wrong", "{}: returned {:e}, expected {:e}", inp(), m5.f(), mag);
         }
         Ok(mode != 0)
+    });
+}
+
+/// one lane of one operand is NaN or an infinity (the other operand is finite): the lengths,
+/// distances, their squares and the dot product must still be what their defining sums evaluate to —
+/// NaN stays NaN, an infinite lane gives an infinite length — in both operand orders, so that
+/// "distance and its square agree" holds for these inputs too
+fn nonfinite_float<T: Fl, V: Sp<T>>(sub: &mut Sub, cfg: &Config, idx: u64) {
+    drive(sub, cfg, idx, "nonfinite_float", T::TY, V::NAME, |cx, rng, h| {
+        let n = V::DIM;
+        let mut x: Vec<T> = (0..n).map(|_| T::of(rng.range_i64(-64, 64) as f64 / 8.0)).collect();
+        let mut y: Vec<T> = (0..n).map(|_| T::of(rng.range_i64(-64, 64) as f64 / 8.0)).collect();
+        let j = rng.usize_below(n);
+        let special = match idx % 3 {
+            0 => f64::NAN,
+            1 => f64::INFINITY,
+            _ => f64::NEG_INFINITY,
+        };
+        let in_x = rng.bool();
+        if in_x {
+            x[j] = T::of(special);
+        } else {
+            y[j] = T::of(special);
+        }
+        let (xs, ys) = (to_f(&x), to_f(&y));
+        h.u(idx % 3).u(in_x as u64).u(j as u64);
+        for v in xs.iter().chain(ys.iter()) {
+            h.f(if v.is_finite() { *v } else { 0.0 });
+        }
+        let (vx, vy): (V, V) = (vfrom(&x), vfrom(&y));
+        let inp = || format!("a={:?} b={:?}", xs, ys);
+        let diff: Vec<f64> = (0..n).map(|i| xs[i] - ys[i]).collect();
+        let same = |got: f64, exp: f64| -> bool { (got.is_nan() && exp.is_nan()) || got == exp || (got.is_finite() && exp.is_finite() && (got - exp).abs() <= 64.0 * T::EPS * exp.abs().max(1.0)) };
+        let m2 = cx.call("magnitude_squared", &inp, || vx.k_mag2())?.f();
+        ensure!(cx, same(m2, fdotf(&xs, &xs)), "magnitude_squared", "non_finite_lane", "{}: a.magnitude_squared() = {:?}, the sum of squares is {:?}", inp(), m2, fdotf(&xs, &xs));
+        let m = cx.call("magnitude", &inp, || vx.k_mag())?.f();
+        ensure!(cx, same(m, fnorm(&xs)), "magnitude", "non_finite_lane", "{}: a.magnitude() = {:?}, the root of the sum of squares is {:?}", inp(), m, fnorm(&xs));
+        let dt = cx.call("dot", &inp, || vx.k_dot(vy))?.f();
+        ensure!(cx, same(dt, fdotf(&xs, &ys)), "dot", "non_finite_lane", "{}: a.dot(b) = {:?}, the sum of products is {:?}", inp(), dt, fdotf(&xs, &ys));
+        let (e2, e1) = (fdotf(&diff, &diff), fnorm(&diff));
+        let d2ab = cx.call("distance_squared", &inp, || vx.k_dist2(vy))?.f();
+        let d2ba = cx.call("distance_squared", &inp, || vy.k_dist2(vx))?.f();
+        let dab = cx.call("distance", &inp, || vx.k_dist(vy))?.f();
+        let dba = cx.call("distance", &inp, || vy.k_dist(vx))?.f();
+        ensure!(cx, same(d2ab, e2), "distance_squared", "non_finite_lane", "{}: a.distance_squared(b) = {:?}, the sum of squared differences is {:?} (a.distance(b) = {:?})", inp(), d2ab, e2, dab);
+        ensure!(cx, same(d2ba, e2), "distance_squared", "non_finite_lane_swapped", "{}: b.distance_squared(a) = {:?}, the sum of squared differences is {:?}", inp(), d2ba, e2);
+        ensure!(cx, same(dab, e1), "distance", "non_finite_lane", "{}: a.distance(b) = {:?}, expected {:?}", inp(), dab, e1);
+        ensure!(cx, same(dba, e1), "distance", "non_finite_lane_swapped", "{}: b.distance(a) = {:?}, expected {:?}", inp(), dba, e1);
+        Ok(true)
     });
 }
 
@@ -1694,6 +1803,18 @@ fn main() {
         }));
     }
     {
+        // enumerated: per type (bits-1) splits of MIN into 2^p * -2^q, k = 0..3, plus MAX - k, k = 0..3
+        let n = (63 * 4 + 4) as u64;
+        let mut proto = Sub::new("area_extreme", "Vec2<i8/i16/i32/i64> triangles whose cross product (b-a) x (c-a) is exactly T::MIN (= 2^p * -(2^q) for every split p+q = bits-1), MIN + k and MAX - k for k = 0..3, with every coordinate, edge, product, the difference, the halved value and its negation representable: determine_side = the cross product, signed_triangle_area = half of it (truncating), triangle_area = its absolute value (2^(bits-2) for MIN); release and overflow-checked profiles, a panic is a violation; the opposite winding is not called (its cross product does not exist in the type); enumerated").with_floor(200).require(&["Vec2::signed_triangle_area", "Vec2::triangle_area", "Vec2::determine_side"]);
+        proto.exhaustive = true;
+        push_sub(&mut rep, run_cases(&cfg, proto, n, |s, i| {
+            if i < 7 * 4 + 4 { area_extreme_case!(s, &cfg, i, i8, "i8"); }
+            if i < 15 * 4 + 4 { area_extreme_case!(s, &cfg, i, i16, "i16"); }
+            if i < 31 * 4 + 4 { area_extreme_case!(s, &cfg, i, i32, "i32"); }
+            area_extreme_case!(s, &cfg, i, i64, "i64");
+        }));
+    }
+    {
         let n = cfg.n(10_000, 300_000);
         let proto = Sub::new("side_area_q", "rational segment a != b and c = a + alpha (b-a) + beta left(b-a) (left = rotated +90 degrees; beta = 0 in a quarter of the cases): determine_side = beta |b-a|^2 (positive = left of ab as documented), signed_triangle_area = half of it (cross-checked with the shoelace formula), triangle_area = absolute value; non-trivial = beta != 0").with_floor(n / 4).require(&["Vec2::determine_side", "Vec2::signed_triangle_area", "Vec2::triangle_area"]);
         push_sub(&mut rep, run_cases(&cfg, proto, n, |s, i| side_area_q(s, &cfg, i)));
@@ -1732,6 +1853,11 @@ fn main() {
         ms.extend(["is_approx_zero", "magnitude", "magnitude_squared", "distance", "distance_squared"]);
         let proto = req(Sub::new("normalize_float", "f32/f64 vectors (Vec2/3/4/8, Extent2/3) with magnitudes 1e-10..1e10, the zero vector, single-component vectors and vectors with |v|^2 within a factor 16 of 4 eps: try_normalized is None exactly when is_approx_zero; is_approx_zero = (|v|^2 <= 4 eps) unless within 1e-6 of the edge; every normalisation form unit within 64 eps and parallel (u_i |v| = v_i within 64 eps |v|); magnitudes and distances within 64 eps relative to an f64 reference; non-trivial = non-zero vector").with_floor(n * nsk), &SMALL_KINDS, &ms);
         push_sub(&mut rep, run_cases(&cfg, proto, n, |s, i| { small_kinds!(normalize_float, f32, s, &cfg, i); small_kinds!(normalize_float, f64, s, &cfg, i); }));
+    }
+    {
+        let n = cfg.n(2000, 200_000);
+        let proto = req(Sub::new("nonfinite_float", "f32/f64 pairs (Vec2/3/4/8, Extent2/3) of short dyadic vectors in which ONE lane of ONE operand is NaN, +inf or -inf: magnitude_squared, magnitude, dot, distance_squared and distance, the last two in both operand orders, must equal (NaN = NaN) what the defining sums over the lanes evaluate to in the type, so that a distance and its square agree for these inputs too; distinct by hash of kind of special value, lane, operand and the finite lanes"), &SMALL_KINDS, &["magnitude", "magnitude_squared", "dot", "distance", "distance_squared"]).with_floor(n * 6);
+        push_sub(&mut rep, run_cases(&cfg, proto, n, |s, i| { small_kinds!(nonfinite_float, f32, s, &cfg, i); small_kinds!(nonfinite_float, f64, s, &cfg, i); }));
     }
     {
         let n = cfg.n(4000, 400_000);
